@@ -71,6 +71,14 @@ func (x *Exec) libCall(key string, fn *types.Func, call *ast.CallExpr, recvExpr 
 		n := x.W.Fresh("nread", SInt)
 		x.W.AddFact(env.pc, And(Cmp(">=", n, IntLit(0)), Cmp("<=", n, x.W.SeqLen(dst))))
 		x.overwriteWindow(call.Args[1], dst, env)
+		if rt := info.TypeOf(call.Args[0]); rt != nil && types.TypeString(rt, nil) == "*bufio.Reader" && isAddressable(call.Args[0]) {
+			cur := x.eval(call.Args[0], env)
+			x.bufioDecl(cur.Sort)
+			nv := x.fresh("brd", rt)
+			x.bufioInv(nv, env)
+			x.W.AddFact(env.pc, And(Eq(x.rdData(nv), x.rdData(cur)), Eq(x.rdPos(nv), Arith("+", x.rdPos(cur), n)), Eq(x.rdBuf(nv), IntLit(0)), Implies(x.rdBad(cur), x.rdBad(nv))))
+			x.assign(call.Args[0], nv, env)
+		}
 		if key == "io.ReadAtLeast" {
 			x.evalMulti(call.Args[2], env)
 			e := x.W.Fresh("rderr", SBool)
@@ -114,6 +122,97 @@ func (x *Exec) libCall(key string, fn *types.Func, call *ast.CallExpr, recvExpr 
 		nv.GoT = cur.GoT
 		x.assign(recvExpr, nv, env)
 		return nil, true
+	case "bufio.NewReader", "bufio.NewReaderSize":
+		// a bufio.Reader is an ideal byte stream: ghost content rdData, position rdPos, and a count rdBuf of bytes
+		// a successful Peek has guaranteed to be available.  Every operation yields a new opaque value.
+		for _, a := range call.Args {
+			x.evalMulti(a, env)
+		}
+		if x.termMode {
+			unsupported("bufio.NewReader in term mode")
+		}
+		r := x.fresh("brd", info.TypeOf(call))
+		x.bufioDecl(r.Sort)
+		x.W.AddFact(env.pc, And(Eq(x.rdPos(r), IntLit(0)), Eq(x.rdBuf(r), IntLit(0)), Not(x.isNilPtr(r)), Not(x.rdBad(r))))
+		x.bufioInv(r, env)
+		return []Term{r}, true
+	case "bufio.(*Reader).ReadByte":
+		if x.termMode {
+			unsupported("bufio in term mode")
+		}
+		cur := x.eval(recvExpr, env)
+		x.bufioDecl(cur.Sort)
+		nv := x.fresh("brd", info.TypeOf(recvExpr))
+		x.bufioInv(nv, env)
+		ok := x.W.Fresh("rdok", SBool)
+		errT := x.W.Fresh("rderr", SBool)
+		b := x.W.Fresh("rdbyte", SInt)
+		data := x.rdData(cur)
+		pos := x.rdPos(cur)
+		atEnd := Cmp(">=", pos, x.W.SeqLen(data))
+		x.W.AddFact(env.pc, And(
+			Eq(errT, Not(ok)),
+			Eq(x.rdData(nv), data),
+			Implies(ok, And(Not(atEnd), Eq(x.rdPos(nv), Arith("+", pos, IntLit(1))), Eq(b, x.W.SeqAt(data, pos)),
+				Eq(x.rdBuf(nv), Ite(Cmp(">=", x.rdBuf(cur), IntLit(1)), Arith("-", x.rdBuf(cur), IntLit(1)), IntLit(0))))),
+			Implies(Not(ok), And(Eq(x.rdPos(nv), pos), Eq(x.rdBuf(nv), x.rdBuf(cur)), Eq(b, IntLit(0)))),
+			Implies(And(Cmp(">=", x.rdBuf(cur), IntLit(1)), Not(x.rdBad(cur))), ok),
+			Implies(atEnd, Not(ok)),
+			Implies(x.rdBad(cur), Not(ok)),
+			Eq(x.rdBad(nv), Or(x.rdBad(cur), And(Not(ok), Not(atEnd)))),
+			And(Cmp("<=", IntLit(0), b), Cmp("<=", b, IntLit(255)))))
+		x.eofFacts(errT, atEnd, env)
+		x.assign(recvExpr, nv, env)
+		b.GoT = types.Typ[types.Uint8]
+		return []Term{b, errT}, true
+	case "bufio.(*Reader).Peek":
+		if x.termMode {
+			unsupported("bufio in term mode")
+		}
+		cur := x.eval(recvExpr, env)
+		x.bufioDecl(cur.Sort)
+		n := arg(0)
+		nv := x.fresh("brd", info.TypeOf(recvExpr))
+		x.bufioInv(nv, env)
+		errT := x.W.Fresh("pkerr", SBool)
+		res := x.fresh("peeked", info.TypeOf(call).(*types.Tuple).At(0).Type())
+		data := x.rdData(cur)
+		pos := x.rdPos(cur)
+		x.W.nfresh++
+		q := fmt.Sprintf("q!%d", x.W.nfresh)
+		qi := T(q, SInt)
+		content := T(fmt.Sprintf("(forall ((%s Int)) (! (=> (and (<= 0 %s) (< %s %s)) (= %s %s)) :pattern (%s)))", q, q, q, x.W.SeqLen(res).S,
+			x.W.SeqAt(res, qi).S, x.W.SeqAt(data, Arith("+", pos, qi)).S, x.W.SeqAt(res, qi).S), SBool)
+		short := Cmp(">", Arith("+", pos, n), x.W.SeqLen(data))
+		x.W.AddFact(env.pc, And(
+			Eq(x.rdData(nv), data), Eq(x.rdPos(nv), pos), content,
+			Cmp("<=", Arith("+", pos, x.W.SeqLen(res)), x.W.SeqLen(data)),
+			Implies(Not(errT), And(Eq(x.W.SeqLen(res), n), Cmp(">=", x.rdBuf(nv), n), Cmp(">=", x.rdBuf(nv), x.rdBuf(cur)))),
+			Implies(errT, And(Cmp("<", x.W.SeqLen(res), n), Cmp(">=", x.rdBuf(nv), x.rdBuf(cur)))),
+			Implies(short, errT),
+			Implies(x.rdBad(cur), errT),
+			Eq(x.rdBad(nv), Or(x.rdBad(cur), And(errT, Not(short)))),
+			Implies(And(Cmp(">=", x.rdBuf(cur), n), Cmp(">=", n, IntLit(0)), Not(x.rdBad(cur))), Not(errT))))
+		x.eofFacts(errT, short, env)
+		x.assign(recvExpr, nv, env)
+		return []Term{res, errT}, true
+	case "bufio.(*Reader).UnreadByte":
+		if x.termMode {
+			unsupported("bufio in term mode")
+		}
+		cur := x.eval(recvExpr, env)
+		x.bufioDecl(cur.Sort)
+		nv := x.fresh("brd", info.TypeOf(recvExpr))
+		x.bufioInv(nv, env)
+		errT := x.W.Fresh("urerr", SBool)
+		pos := x.rdPos(cur)
+		x.W.AddFact(env.pc, And(
+			Eq(x.rdData(nv), x.rdData(cur)),
+			Implies(Not(errT), And(Cmp(">=", pos, IntLit(1)), Eq(x.rdPos(nv), Arith("-", pos, IntLit(1))), Eq(x.rdBuf(nv), Arith("+", x.rdBuf(cur), IntLit(1))))),
+			Implies(errT, And(Eq(x.rdPos(nv), pos), Eq(x.rdBuf(nv), x.rdBuf(cur)))),
+			Eq(x.rdBad(nv), x.rdBad(cur))))
+		x.assign(recvExpr, nv, env)
+		return []Term{errT}, true
 	case "bytes.NewReader":
 		// a bytes.Reader is modelled as the sequence of bytes not yet read
 		v := arg(0)
@@ -523,4 +622,41 @@ func (x *Exec) indexFacts(key string, as []Term, out []Term, env *Env) {
 			}
 		}
 	}
+}
+
+// ---- bufio.Reader model helpers ----
+func (x *Exec) bufioDecl(so Sort) {
+	x.W.DeclareFun("rdData", []Sort{so}, x.W.SeqSort(SInt))
+	x.W.DeclareFun("rdPos", []Sort{so}, SInt)
+	x.W.DeclareFun("rdBuf", []Sort{so}, SInt)
+	x.W.DeclareFun("rdBad", []Sort{so}, SBool)
+	if !x.W.constSeen["bufio_axiom_"+string(so)] {
+		x.W.constSeen["bufio_axiom_"+string(so)] = true
+		// every reader value (also one that comes back from a callee or a loop cut) is a position in a finite stream
+		x.W.Facts = append(x.W.Facts, fmt.Sprintf("(forall ((r %s)) (! (and (<= 0 (rdPos r)) (<= (rdPos r) (Seq_Int_len (rdData r))) (<= 0 (rdBuf r)) (<= (rdBuf r) (- (Seq_Int_len (rdData r)) (rdPos r)))) :pattern ((rdPos r))))", so))
+		x.W.Facts = append(x.W.Facts, fmt.Sprintf("(forall ((r %s) (k Int)) (! (and (<= 0 (Seq_Int_at (rdData r) k)) (<= (Seq_Int_at (rdData r) k) 255)) :pattern ((Seq_Int_at (rdData r) k))))", so))
+	}
+}
+func (x *Exec) rdBad(r Term) Term { return T("(rdBad "+r.S+")", SBool) }
+func (x *Exec) rdData(r Term) Term { return T("(rdData "+r.S+")", x.W.SeqSort(SInt)) }
+func (x *Exec) rdPos(r Term) Term  { return T("(rdPos "+r.S+")", SInt) }
+func (x *Exec) rdBuf(r Term) Term  { return T("(rdBuf "+r.S+")", SInt) }
+func (x *Exec) isNilPtr(r Term) Term {
+	pn := "isnilptr_" + sanitize(string(r.Sort))
+	x.W.DeclareFun(pn, []Sort{r.Sort}, SBool)
+	return T("("+pn+" "+r.S+")", SBool)
+}
+
+// bufioInv: 0 <= rdPos <= len(rdData), 0 <= rdBuf <= remaining, bytes are bytes
+func (x *Exec) bufioInv(r Term, env *Env) {
+	d := x.rdData(r)
+	x.W.AddFact(env.pc, And(Cmp("<=", IntLit(0), x.rdPos(r)), Cmp("<=", x.rdPos(r), x.W.SeqLen(d)), Cmp("<=", IntLit(0), x.rdBuf(r)),
+		Cmp("<=", x.rdBuf(r), Arith("-", x.W.SeqLen(d), x.rdPos(r))), Cmp(">=", x.W.SeqLen(d), IntLit(0)), Not(x.isNilPtr(r))))
+}
+
+// eofFacts: the error of a read at the end of the stream is io.EOF, and io.EOF is only reported at the end
+// (uses the same per-error-term sentinel constant as comparisons `err == io.EOF`).
+func (x *Exec) eofFacts(errT Term, atEnd Term, env *Env) {
+	c := x.W.DeclareConst("is_io_EOF!"+sanitize(errT.S), SBool)
+	x.W.AddFact(env.pc, And(Implies(And(errT, c), atEnd), Implies(And(errT, atEnd), c)))
 }
